@@ -13,7 +13,7 @@ expanded row / which bin).  The harness compares
   * numerically: <var>_mean/_std/_number against long-double statistics over the partner values Coq names
     (absolute tolerance 1e-9 * max(1, |values|)); NaN-ness must agree exactly,
   * exactly again: <var>_number and the NaN-ness of <var>_mean/_std against the counts Coq computes from the validity
-    flags of the data (run_counts: through the model's bin matrix and through the partner lists; theorems
+    flags of the data (run_collapse_m: through the model's bin matrix and through the partner lists; theorems
     collapse_mean_std_number, collapse_nan_iff_all_partners_nan, collapse_number_by_mask), the names of the output
     fields of every call against collapser_names (theorem collapse_call_independent: mean, std, number plus the
     call's own custom names), a custom `std` replacing only std (collapse_custom_keeps_defaults), and the statistics
@@ -37,7 +37,9 @@ PREAMBLE = "From Typhon Require Import Model.C13_compact.\n"
 TRUSTED = [
     "correspondence harness tools/props/c13.py (dataset generators, id/tag decoding, long-double reference statistics, tolerance 1e-9)",
     "xarray positional selection (isel), swap_dims/rename, concat/merge and numpy fancy assignment: exercised by the correspondence, modelled as list operations",
-    "numpy nanmean/nanstd/count_nonzero: compared numerically with long-double statistics over the partner values named by Coq",
+    "numpy nanmean/nanstd/count_nonzero: modelled as real-valued functions on option R (Model/C13_stats.v); the floating-point "
+    "values are compared numerically with long-double statistics over the partner values named by Coq, the counts and the "
+    "NaN-ness exactly with what Coq computes from the validity flags of the data",
     "row assignment: numba is not installed here, so both size classes (< 1000 and >= 1000 pairs) run the pure-Python _rows_for_secondaries; the numba variant is numba.jit of the same function and is not exercised",
     "Collocator.collocate: the pair search itself is C04's business; here only the compaction of the raw pairs it found (read by wrapping _create_return from outside) is tied",
 ]
@@ -422,12 +424,11 @@ def masks_lit(m):
 
 
 def ds_expr(n_p, n_s, pr, sr, masks):
-    """run_dataset + the exact counts of valid values of w per reference point and lane (reference primary: flags of
-    the secondaries; reference secondary: flags of the primaries) + the field names of the three kinds of calls"""
-    d = f"(ids_cds {zlit(n_p)} {zlit(n_s)} {zlist(pr)} {zlist(sr)})"
-    return (f"(run_dataset {zlit(n_p)} {zlit(n_s)} {zlist(pr)} {zlist(sr)}, "
-            f"run_counts {d} false {masks_lit(masks[1])} {zlit(len(masks[1][0]))}, "
-            f"run_counts {d} true {masks_lit(masks[0])} {zlit(len(masks[0][0]))}, "
+    """run_dataset_m: the verdicts of run_dataset + the exact counts of valid values of w per reference point and lane
+    (reference primary: flags of the secondaries; reference secondary: flags of the primaries), and the field names of
+    the three kinds of calls"""
+    return (f"(run_dataset_m {zlit(n_p)} {zlit(n_s)} {zlist(pr)} {zlist(sr)} "
+            f"{masks_lit(masks[0])} {zlit(len(masks[0][0]))} {masks_lit(masks[1])} {zlit(len(masks[1][0]))}, "
             f'(collapser_names ["rec"%string], collapser_names ["std"%string], collapser_names []))')
 
 
@@ -467,13 +468,14 @@ def judge_dataset(ctx, case, ds, names, obs, val, label):
     if val is None:
         ctx.fail("correspondence", "Coq evaluation of the model failed", case=case, signature="coq-eval")
         return False
-    okb, ex_model, ex_spec, cp, cs, cnt_p, cnt_s, (names_rec, names_std, names_plain) = val
+    okb, ex_model, ex_spec, cp, cs, (names_rec, names_std, names_plain) = val
+    # cp / cs = (model ids, spec ids, (height, columns, all columns of that height), model counts, spec counts)
     if not okb:
         ctx.fail("correspondence", f"{label}: the generated dataset does not satisfy compact_ok (harness error)",
                  case=case, signature="harness-not-compact")
         return False
     if ex_model != ex_spec or cp[0] != cp[1] or cs[0] != cs[1] or not cp[2][2] or not cs[2][2] \
-            or cnt_p[0] != cnt_p[1] or cnt_s[0] != cnt_s[1]:
+            or cp[3] != cp[4] or cs[3] != cs[4]:
         ctx.fail("proof", "model and specification disagree inside Coq (cannot happen while the theorems stand)",
                  case=case, signature="model-vs-spec")
     kind = "failing-input"            # compact_ok holds, the model provably equals the specification
@@ -571,8 +573,8 @@ def judge_dataset(ctx, case, ds, names, obs, val, label):
             if done:
                 break
             # exactly: the count of valid partner values per lane as Coq states it (w: from the validity flags through
-            # run_counts; u, k hold no NaN: the number of partners), and NaN-ness of mean / std <-> that count is 0
-            cnt_spec = (cnt_s if ref_secondary else cnt_p)[1]
+            # run_collapse_m; u, k hold no NaN: the number of partners), and NaN-ness of mean / std <-> that count is 0
+            cnt_spec = (cs if ref_secondary else cp)[4]
             got_n = np.asarray(st["number"]).reshape(n_ref, -1)
             if v == "w":
                 want_n = np.array([cnt_spec[rowpos[r]] for r in range(n_ref)], dtype=np.int64).reshape(n_ref, -1)
@@ -941,7 +943,7 @@ def run(ctx):
     ctx.cov["rule"] = ("harness-built compact datasets (1-1300 pairs; one-to-many, many-to-one, identity, full, skewed and random "
                        "multiplicities; shuffled / sorted pair order; arbitrary point numbering; variables with 0-2 extra "
                        "dimensions, transposed layout, NaNs incl. all-NaN points, integer data; default and named reference; a "
-                       "custom collapser), lists of 1-4 datasets for concat (incl. the same dataset listed twice) and results "
+                       "custom collapser, a custom function overriding std, the pair list rearranged), lists of 1-4 datasets for concat (incl. the same dataset listed twice) and results "
                        "of Collocator.collocate on clustered points; a dataset is non-trivial when some point has >= 2 partners "
                        "and the multiplicities are not all equal, a concat case when it has >= 2 entries and a repeated "
                        "primary, a collocate case when a point occurs in >= 2 raw pairs; distinct by input")
@@ -951,7 +953,7 @@ def run(ctx):
     ctx.cov["input_distribution"] = {
         "datasets": n_ds, "datasets_with_1000+_pairs": n_big, "concat_cases": n_cc, "collocate_cases": n_col,
         "styles": styles, "numba_available": bool(getattr(cm, "_has_numba", False)),
-        "row_assignment_variant_exercised": "numba" if cm._has_numba else "pure Python (also for >= 1000 pairs)",
+        "row_assignment_variant_exercised": "numba" if getattr(cm, "_has_numba", False) else "pure Python (also for >= 1000 pairs)",
         "pairs_per_dataset": {"min": min(len(x["pairs"][0]) for x in ds_cases + big_cases),
                               "max": max(len(x["pairs"][0]) for x in ds_cases + big_cases)},
     }
@@ -959,8 +961,13 @@ def run(ctx):
         "hypothesis of the bin / expand / concat theorems: the pair rows satisfy compact_ok (valid indices, every stored point in a "
         "pair) -- decided per case by the certified checker compact_okb inside Coq; theorems compact_valid / compact_surjective / "
         "concat_compact_ok show that collocate and concat establish it",
-        "data values are an abstract type in the theorems; a NaN-ignoring collapser is a function of the non-padding cells of a "
-        "column; the floating-point evaluation of mean/std is compared numerically (1e-9 relative to the data magnitude)",
+        "data values are an abstract type in the bin theorems (a NaN-ignoring collapser is a function of the non-padding cells "
+        "of a column); in the statistics theorems a lane of a value is `option R` (None = NaN, no infinities) and mean / std are "
+        "the exact real-valued functions; the floating-point evaluation of mean/std is compared numerically (1e-9 relative to "
+        "the data magnitude), <var>_number and the NaN-ness exactly",
+        "collapse_call_independent is a statement about the model (a call is a function of dataset, reference and custom "
+        "functions); that the code keeps no state between calls is tied by the call histories (custom `rec`, custom `std`, "
+        "plain, rearranged pairs, then the other reference) run on every dataset",
     ]
     # report the smallest failing case of every signature (the library prints the first one)
     ctx.failures.sort(key=lambda f: len(json.dumps(f.case, default=str)) if f.case is not None else 0)
